@@ -1154,3 +1154,138 @@ from rules.C08 import r13 as _c08_mask_window
 RS.rules.append(Rule('C11.R12', 'K-ORDER+K-RES', 'no disposition is changed (and nothing returns) between block_sigint_sigquit and restore_sigmask: a caught signal '
                      'stays blocked outside select and the select mask never inherits the temporary block (C08.R13)', _c08_mask_window))
 RS.explanation += ' No disposition is changed between block_sigint_sigquit and restore_sigmask (R12 = C08.R13).'
+
+
+# ----------------------------------------------------------------- R13
+# added for seed C11-s7 (run_traps_for_caught_signals drained every pending flag into a Vec before running any action)
+TAKES = ['yash_env::trap::TrapSet::take_caught_signal', 'yash_env::trap::TrapSet::take_signal_if_caught']
+_LIST_PROPAGATORS = Q.PROPAGATING_CALLS + Q.AWAIT_CALLS + Q.TRY_BRANCH + [
+    re.compile(r'^core::option::Option::<T>::(as_ref|as_mut|as_deref|copied|cloned|take)$')]
+
+
+def _runs_trap_of(F, callee, depth=1):
+    """`callee` is run_trap itself, or a non-public helper of yash_semantics::trap that reaches (and awaits) run_trap on every
+    path to its return (extracting `async fn run_one(env, signal, state)` is a behaviour-preserving refactoring)."""
+    if callee == RUN_TRAP:
+        return True
+    if not callee or depth <= 0 or not callee.startswith('yash_semantics::trap::') or (F.fns.get(callee) or {}).get('vis') == 'pub':
+        return False
+    try:
+        hb = F.main_body(callee)
+    except Exception:
+        return False
+    hdu = Q.DefUse(hb)
+    done = set()
+    for b, t in hb.calls():
+        if _runs_trap_of(F, t['f'].get('def') or '', depth - 1):
+            d = await_done(F, hb, hdu, t)
+            if d is not None:
+                done.add(d)
+    return bool(done) and Q.must_pass(hb, [0], done) is None
+
+
+def _take_then_run(cx, F, body, fn):
+    """The K-PASS clause of R13 on one body that calls TrapSet::take_*. Returns the number of take sites examined."""
+    du = Q.DefUse(body)
+    takes = Q.find_calls(body, TAKES)
+    take_blocks = {b for b, _ in takes}
+    n = 0
+    for tb, tt in takes:
+        n += 1
+        if tt.get('to') is None:
+            continue
+        taint = Q.forward_taint(body, {tt['dest']['l']})
+        narrow = Q.forward_taint(body, {tt['dest']['l']}, through_calls=_LIST_PROPAGATORS)
+        # "nothing was taken": the None / Break edge of a test on the take result itself (its type still names the TrapState)
+        absent = set()
+        for u in body.live_blocks():
+            ec = Q.edge_condition(F, body, du, u)
+            if not ec or ec[0]['k'] != 'discr' or ec[0]['pl']['l'] not in narrow or 'TrapState' not in (ec[0].get('ty') or ''):
+                continue
+            for tgt, labs in ec[1].items():
+                if labs and all(l[0] == 'variant' and l[1] in ('None', 'Break') for l in labs):
+                    absent.add((u, tgt))
+        # "the signal has no command to run": blocks reached only when the action of the taken state is not Action::Command
+        # (decided by a variant test on the taken state's action; through `matches!` / `&&` flags via implied_conditions)
+        no_command = set()
+        for u in sorted(body.live_blocks()):
+            for org, lab, e in Q.implied_conditions(F, body, du, u):
+                if org['k'] != 'discr' or org['pl']['l'] not in taint or not re.search(r'trap::(\w+::)?Action\b', org.get('ty') or ''):
+                    continue
+                ec = Q.edge_condition(F, body, du, e[0]) if e[0] != e[1] else None
+                labs = ec[1].get(e[1], []) if ec else []
+                if labs and ('variant', 'Command') not in labs and all(l[0] == 'variant' for l in labs):
+                    no_command.add(u)
+                    break
+        # the action of the taken state is run (and awaited)
+        through, shown = set(), []
+        for b, t in body.calls():
+            callee = t['f'].get('def') or ''
+            if not _runs_trap_of(F, callee):
+                continue
+            args = t['a'][2:3] if callee == RUN_TRAP else t['a']
+            if not any(Q.operand_local(a) in taint for a in args):
+                continue            # runs something that was not taken here
+            d = await_done(F, body, du, t)
+            shown.append(body.loc(t))
+            if d is None:
+                cx.violation(fn, 'taken-action-not-awaited', 'the future that runs the trap action of the taken signal is not awaited: the pending '
+                             'flag is cleared and the action never runs', loc=body.loc(t))
+                d = b
+            through.add(d)
+        p = Q.must_pass(body, [tt['to']], through | no_command, goal_blocks=set(body.return_blocks()) | take_blocks, removed_edges=absent)
+        cx.site('%s: %s at %s; the taken action is run at %s before the next take / return: %s'
+                % (body.fn, pp.callee(tt).split('::')[-1], body.loc(tt), shown or 'nowhere', p is None))
+        if p is not None:
+            end = 'takes the next caught signal' if p[-1] in take_blocks else 'returns'
+            cx.violation(fn, 'pending-cleared-without-running', 'after a caught signal has been taken out of the trap set (its pending flag is cleared) '
+                         'this function %s without having run that signal\'s trap action: whatever happens later - an earlier action of the same '
+                         'batch diverts (`trap return USR1` inside a function, `trap break USR1` in a loop) and the `?` leaves, or the future is '
+                         'dropped - the signal is no longer pending anywhere, so its trap runs zero times instead of once' % end,
+                         loc=body.loc(tt), path=Q.render_path(body, p))
+    return n
+
+
+@RS.rule('C11.R13', 'K-PASS', 'a pending flag is cleared only immediately before its own action runs: from the Some edge of every '
+         'TrapSet::take_caught_signal / take_signal_if_caught, each path to the NEXT take or to a return passes the awaited run_trap of the '
+         'taken state (paths on which the taken state has no Action::Command excepted) - caught signals are never collected first and run later')
+def r13(cx):
+    F = cx.F
+    sites = [(b, i, t) for b, i, t in F.callers_of(lambda names, t: any(n in TAKES for n in names))
+             if not b.root.startswith('yash_env::trap::')]
+    cx.floor(len({b.fn for b, i, t in sites}), 2, 'functions that take caught signals out of the trap set')
+    seen = set()
+    for b0, _, _ in sites:
+        if b0.fn in seen:
+            continue
+        seen.add(b0.fn)
+        cx.fn(b0.fn)
+        body = F.inlined(b0)
+        du = Q.DefUse(body)
+        runs = [t for b, t in body.calls() if _runs_trap_of(F, t['f'].get('def') or '')]
+        returned = any(0 in Q.forward_taint(body, {t['dest']['l']}) for b, t in Q.find_calls(body, TAKES))
+        sync_private = (F.fns.get(b0.root) or {}).get('vis') != 'pub' and not F.is_async(b0.root) and b0.fn == b0.root
+        if not runs and returned and sync_private:
+            # a private helper that only fetches the next trap (`fn next_trap(env) -> Option<..>`): the clause is about its callers,
+            # which see the take call once the helper is inlined
+            callers = F.callers_of(lambda names, tt: b0.root in names)
+            followed = 0
+            for cb, ci, ct in callers:
+                if cb.fn in seen:
+                    continue
+                seen.add(cb.fn)
+                icb = F.inlined(cb)
+                if Q.find_calls(icb, TAKES):
+                    cx.fn(cb.fn)
+                    followed += _take_then_run(cx, F, icb, cb.root)
+                else:
+                    cx.site('%s calls %s, which takes a caught signal, but the helper cannot be inlined' % (cb.fn, b0.root))
+                    cx.violation(cb.root, 'take-helper-not-followed', 'the caller of a helper that takes a caught signal out of the trap set '
+                                 'could not be analysed (the helper is not inlinable): the rule cannot see that the action runs', loc=cb.loc(ct))
+            if callers:
+                continue
+        _take_then_run(cx, F, body, b0.root)
+
+
+RS.explanation += (' A caught signal is taken out of the trap set (pending flag cleared) only immediately before its own action is run and awaited; '
+                   'no function drains several pending signals before running them (R13).')
